@@ -390,6 +390,8 @@ fn near_miss() -> Vec<Vec<GRule>> {
             out.push(body_helpers(vec![nrule("r", seq(rep.clone(), s("x")))]));
             out.push(body_helpers(vec![nrule("r", seq(s("y"), Push(b(Neg(b(rep.clone()))))))]));
         }
+        out.push(body_helpers(vec![nrule("r", bd.clone())]));
+        out.push(body_helpers(vec![nrule("r", seq(bd.clone(), s("x")))]));
         // E. WHITESPACE / COMMENT
         for sp in ["WHITESPACE", "COMMENT"] { for ty in [Ty::Silent, Ty::Normal, Ty::Compound] {
             let spb = if body == id("self") { id(sp) } else { body.clone() };
@@ -519,7 +521,9 @@ fn main() {
             let ws = ["a = { a? ~ \"x\" }", "a = { !a ~ \"x\" }", "a = { a{2} }", "a = { b ~ \"x\" }\nb = { a? }"];
             let rejected = ws.iter().filter(|t| verdict_text(t).starts_with("err:lr")).count();
             let ok_valid = verdict_text("a = { \"\" ~ \"a\"? ~ \"a\"* ~ (\"a\" | \"b\") ~ a }") == "ok";
-            writeln!(w, "#PROBE\tfix_leftrec={}\twitnesses_rejected={}\tvalid_recursion_ok={}", (rejected == ws.len()) as u8, rejected, ok_valid as u8).unwrap();
+            // grammar-extras: does filter_map_top_down descend into node tags?  (`-` when built without the feature)
+            let tag = if extras() { if verdict_text("r = { #t = (\"\"*) }").starts_with("err:rep_nf") { "1" } else { "0" } } else { "-" };
+            writeln!(w, "#PROBE\tfix_leftrec={}\tfix_tag={}\twitnesses_rejected={}\tvalid_recursion_ok={}", (rejected == ws.len()) as u8, tag, rejected, ok_valid as u8).unwrap();
             return;
         }
         _ => { eprintln!("usage: c06 nearmiss [MAXLEN] | random COUNT SEED [MAXLEN] | one SEXP [MAXLEN] | probe"); std::process::exit(2); }
